@@ -116,6 +116,34 @@ func ruleDateRepair(c *Ctx, rule string) {
 		} else {
 			c.Pass(rule, "date-kept fn="+c.P.ShortName(fn), dk, c.P.ShortName(fn))
 		}
+		// the repair is applied to every origin response, whatever its status: a 304 without a (valid) Date is merged into
+		// the stored response and written back with the validation's timestamps; the old Date would then sit next to a new
+		// response time and the freshened entry would be stale at once
+		for caller := range c.A.Reach {
+			instrsOf(caller, func(in ssa.Instruction) {
+				cc := callOf(in)
+				if cc == nil || cc.StaticCallee() != fn {
+					return
+				}
+				guard := ""
+				for _, dc := range dominatingConds(in.Block()) {
+					for _, lf := range condLeaves(dc.cond, dc.onTrue) {
+						a, _, ok := c.An.AtomOf(lf.v)
+						if ok && (a.Key == "nil:resp" || a.Key == "nil:err") {
+							continue
+						}
+						guard = fmt.Sprintf("`%s` (%s)", lf.v.String(), c.P.Pos(lf.v.Pos()))
+					}
+				}
+				da := "the Date repair is applied to every origin response (no status or other condition in front of it)"
+				k := "date-repair-always fn=" + c.P.ShortName(caller)
+				if guard != "" {
+					c.Fail(rule, k, da, c.P.InstrPos(in)+": the repair is skipped unless "+guard+"; a 304 without a valid Date then leaves the stored response's old Date in place while its timestamps restart")
+				} else {
+					c.Pass(rule, k, da, c.P.InstrPos(in))
+				}
+			})
+		}
 		// the value written is in UTC with the HTTP time format (a local-time stamp labelled GMT ages entries by the zone offset)
 		okUTC := false
 		instrsOf(fn, func(in ssa.Instruction) {
